@@ -20,19 +20,22 @@ yen = KaniUnit("c13_yen", CORE,
                modules=[dict(file=CORE + "/src/algorithm/search/search_instance.rs", src="world.rs"), dict(file=YEN, src="c13_yen.rs")],
                harnesses=[H("c13_yen_spur_range_no_underflow", "complete", "yens_algorithm::run: the spur range `0..prev_accepted_path.len()<..>` neither underflows nor leaves the previous path, for any stored route (len >= 1)", timeout=120)])
 yen.native_witnesses = ['c13_wit_yen_one_edge_route', 'c13_wit_yen_two_edge_route_returns', 'c13_wit_yen_three_edge_route_with_detour', 'c13_wit_yen_spur_vertex_without_alternative', 'c13_wit_yen_at_most_k_distinct_routes', 'c13_wit_yen_routes_are_loop_free']
-sv = VerusUnit("c13_single_via", "c13_single_via", rlimit=60)
+kw = KaniUnit("c01_wit", CORE, modules=[dict(file=CORE + "/src/algorithm/search/search_instance.rs", src="world.rs"),
+                                       dict(file=CORE + "/src/algorithm/search/search_algorithm.rs", src="c01_wit.rs")], harnesses=[])
+kw.native_witnesses = ["c01_wit_single_via_routes_are_walks", "c03_wit_ksp_routes_report_their_own_retraversal"]
+sv = VerusUnit("c13_single_via", "c13_single_via", rlimit=60, paired_kani=(kw, []))
 yr = VerusUnit("c13_yen_run", "c13_yen_run", rlimit=60, paired_kani=(yen, []))
 cs = VerusUnit("c13_cosine", "c13_cosine", rlimit=30)
-UNITS = [sv, yr, cs, sim, term, yen]
+UNITS = [sv, yr, cs, sim, term, yen, kw]
 EXPLANATION = ("single-via driver UNDER CONTRACT (unit c13_single_via, Verus, verbatim `run`, any graph / k / criteria / similarity function): at most k routes; with k >= 1 at least one and the first is the "
                "forward tree's own route to the target; every alternative is loop-free (route_contains_loop == two edges share a source vertex, verified) and is the forward tree's route to a via vertex followed by the "
                "reverse tree's route re-traversed in travel direction (reorient_reverse_route: edge order reversed, each edge traversed after its true predecessor from the state that predecessor left, verified); "
                "no two routes have the same edge sequence (test_id_similarity verified) and no later route is too similar to an earlier one under the configured function; with well-formed trees (TW of unit al_astar) "
                "every alternative is a contiguous source-to-target walk (lemma); the driver's loops TERMINATE (decreases: queue size), given that its callees do. "
                "Yen's driver UNDER CONTRACT as well (unit c13_yen_run, Verus, verbatim `run` / get_first_route / same_path): never more than k routes (one pass accepts one route), every route a contiguous walk from the query's "
-               "source to its target (root prefix of the previous route joined to the spur search's route at the spur vertex; lemmas walk_prefix / walk_join), no alternative leaves a vertex twice, the spur range does not underflow, "
-               "every spur-search outcome other than a result or 'no path' ends the query (ghost log; C10: a terminated sub-search is never swallowed), and all four loops TERMINATE (decreases k - accepted). Six defects of the pinned "
-               "driver were found on the way (underflow, endless loop, more than k / duplicate routes, an answerable query failed by one spur search, looping routes) and repaired in /repo. "
+               "source to its target (root prefix of the previous route joined to the spur search's route at the spur vertex; lemmas walk_prefix / walk_join), no alternative leaves a vertex twice, every route reports the state accumulated along ITS OWN edges (each edge traversed after the edge actually before it, from the state it left: `chained`), the spur range does not underflow, "
+               "every spur-search outcome other than a result or 'no path' ends the query (ghost log; C10: a terminated sub-search is never swallowed), and all four loops TERMINATE (decreases k - accepted). Seven defects of the pinned "
+               "driver were found on the way (underflow, endless loop, more than k / duplicate routes, an answerable query failed by one spur search, looping routes, spur halves whose state restarted at zero) and repaired in /repo. "
                "Kernels by Kani: the similarity decision and the stop criterion complete over their domains; Yen: expression-level call-site obligation on the spur range + witnesses for one- and two-edge routes (two defects found and fixed)")
 NOT_DECIDED = ("that the first route is least-cost (C02 is not optimality); cos_similarity only as a composition (unit c13_cosine: cosine = dot(a, b) / (sqrt(sumsq a) * sqrt(sumsq b)) over ASSUMED helpers for its five HashMap/HashSet pipelines; symmetric); in the drivers the verdict is an uninterpreted deterministic function; "
                "SearchAlgorithm::run_vertex_oriented (assumed to hand through run_a_star's trees); Yen: that no two routes have the same edge sequence and that no two are too similar (the driver accepts a candidate that is dissimilar to SOME accepted route; not decided); termination of the underlying searches")
